@@ -187,6 +187,12 @@ func runC03(p *core.Program, r *core.Report) {
 				}
 			}
 			c.ob("AG9", fname, "new last slot sifted up", p.InstrPos(ap), okUp, "after the append Push must call moveUp(size()-1)")
+			if moveUp != nil {
+				for _, call := range callsTo(fn, moveUp) {
+					extra := unaccountedGuard(fn, call.Block(), func(v ssa.Value) bool { return sizeVsSmall(fn, v) })
+					c.ob("AG9", fname, "every pushed value is sifted", p.InstrPos(call), extra == nil, "the sift after the append hangs on a branch other than the loop over the arguments (or a test of the heap's size against 0 or 1): some pushed values stay where they were appended")
+				}
+			}
 		}
 	}
 
@@ -400,6 +406,8 @@ func runC03(p *core.Program, r *core.Report) {
 					okDown = true
 				}
 				c.ob("RS1", fname, "re-sift at the slot that was filled", p.InstrPos(call), isK && k == 0, "Pop filled slot 0 and must re-sift slot 0")
+				extra := unaccountedGuard(fn, call.Block(), func(v ssa.Value) bool { return sizeVsSmall(fn, v) })
+				c.ob("RS1", fname, "the root is sifted on every non-empty pop", p.InstrPos(call), extra == nil, "the re-sift hangs on a branch other than a test of the heap's size against 0 or 1: in some states the moved element stays at the root")
 			}
 		}
 		c.ob("RS1", fname, "root sifted down", c.fpos(fn), okDown, "after moving the last element to the root Pop must call moveDown(size(), 0)")
